@@ -48,7 +48,7 @@ Definition stype_of_code (c : N) : stype :=
 Definition uop_of_code (c : N) : option uop :=
   match c with
   | 3 => Some USend | 14 => Some USendMulti | 4 => Some URecv | 15 => Some URecvMulti
-  | 1 | 2 | 5 | 6 | 7 | 16 | 17 => Some UDelegated
+  | 1 | 2 | 5 | 6 | 7 | 16 | 17 | 19 => Some UDelegated
   | _ => None
   end.
 
